@@ -1126,7 +1126,7 @@ pub fn imp_case(idx: u64) -> (String, Cfg) {
 // ---------------------------------------------------------------------------------------------
 pub const PERF_FAMILIES: &[&str] = &[
     "call", "chain", "array", "dict", "closure", "block", "content", "cond", "mathdelim", "list", "paren", "binary",
-    "dotcall", "mathcall", "strong", "unary", "letdestruct", "args-content",
+    "dotcall", "mathcall", "strong", "unary", "letdestruct", "args-content", "plainchain", "closure-call", "show-chain",
 ];
 pub fn perf_case(fam: &str, d: usize) -> String {
     let rep = |o: &str, c: &str, core: &str| -> String {
@@ -1193,6 +1193,9 @@ pub fn perf_case(fam: &str, d: usize) -> String {
             s + "\n"
         }
         "unary" => format!("#({}x)\n", "-".repeat(d)),
+        "plainchain" => format!("#let result = {}\n", rep("document.metadata.transform(", ")", "0")),
+        "closure-call" => format!("#{}\n", rep("f(x => g.h.map(", "))", "x")),
+        "show-chain" => format!("#show: {}\n", rep("a.b.with(c.d.e(", "))", "1")),
         "letdestruct" => format!("#let {} = y\n", rep("(a, ", ")", "b")),
         _ => {
             let mut s = String::from("#f");
